@@ -19,6 +19,9 @@ var verifDir = "/verif"
 var pkgDirs = map[string]string{"mcap": "go/mcap", "ros": "go/ros", "ros1msg": "go/ros/ros1msg"}
 
 func main() {
+	if r := os.Getenv("GOVC_REPO"); r != "" {
+		repoDir = r
+	}
 	if len(os.Args) < 2 {
 		fmt.Fprintln(os.Stderr, "usage: govc <verify|check|ledger|selftest|axioms> ...")
 		os.Exit(2)
